@@ -177,7 +177,7 @@ CHECKS = {
             'representatives, and None otherwise. The same tree, deep-copied and instrumented, runs under CPython on 4 inputs; each '
             'probe logs the abstract type of the value under the index of the annotated node. Every (node, observed type) pair on an '
             'annotated node and every (local function, captured variable, type at a call) triple with a CLOSURE_TYPES entry is judged.',
-            'Two program classes: one that avoids the constructs of the two recorded findings (no violation of any kind is tolerated there) and one that does not (violations are attributed by mechanism). A set containing typing.Any is read as unknown.',
+            'Two program classes: one without bindings of unknown static type over typed variables and without nonlocal rebinding to another type, and one with both (incl. local functions calling local functions); both findings these constructs exposed are repaired, so no violation is tolerated in either. A set containing typing.Any is read as unknown.',
             'DESIGN.md 3/C19'),
     'C20': ('exploration',
             'exhaustive enumeration of the option space with an executing-code probe',
